@@ -52,6 +52,30 @@ Definition build_image (name tag digest : string) : string :=
 (* ---------- image.IsImageMatched ---------- *)
 Definition img_pattern (t : string) : option string := render gen_image_match_pattern t.
 
+(* node by node: the legacy result [l] where it differs from the input [o], else the field-spec result [f] *)
+Fixpoint combine (o l f : node) {struct o} : node :=
+  match o, l, f with
+  | Scalar _ _ _, _, _ => if node_eqb l o then f else l
+  | Map ko, Map kl, Map kf =>
+      Map ((fix go (a : list (string * node)) (b c : list (string * node)) : list (string * node) :=
+              match a, b, c with
+              | (k, x) :: a', (_, y) :: b', (_, z) :: c' => (k, combine x y z) :: go a' b' c'
+              | _, _, _ => b
+              end) ko kl kf)
+  | Seq eo, Seq el, Seq ef =>
+      Seq ((fix go (a b c : list node) : list node :=
+              match a, b, c with
+              | x :: a', y :: b', z :: c' => combine x y z :: go a' b' c'
+              | _, _, _ => b
+              end) eo el ef)
+  | _, _, _ => l
+  end.
+Fixpoint combine_list (o l f : list node) : list node :=
+  match o, l, f with
+  | x :: o', y :: l', z :: f' => combine x y z :: combine_list o' l' f'
+  | _, _, _ => l
+  end.
+
 Section WithRegexp.
   (* regexp.Compile on the pattern texts that occur: None = compile error *)
   Variable parse : string -> option re.
@@ -153,10 +177,20 @@ Section WithRegexp.
     if str_in (obj_kind obj) gen_fsfilter_skip_kinds then Ok obj
     else fsslice_apply None TNone (set_image_value im) fss obj.
 
-  (* ImageTagTransformerPlugin.Transform: LegacyFilter over every resource, then Filter over every resource *)
+  (* ImageTagTransformerPlugin.Transform: LegacyFilter over every resource, then Filter over every resource.
+     Since the repair of the double update ([gen_image_transform_shares_visited]) the two filters
+     share the set of fields already updated: the second filter skips them.  A field the legacy scan
+     matched but left textually and structurally unchanged is updated to the same node again by the
+     second filter, so "skipped" can be read as "changed by the legacy scan": the result is, node by
+     node, the legacy result where it differs from the input and otherwise the field-spec result
+     computed on the input (neither filter changes the shape of a document: image field specs never
+     create). *)
   Definition image_transform (im : image) (fss : list fieldspec) (rs : list node) : res (list node) :=
     do rs1 <- mapM (legacy_filter im) rs;
-    mapM (image_fs_filter im fss) rs1.
+    if gen_image_transform_shares_visited then
+      do rsf <- mapM (image_fs_filter im fss) rs;
+      Ok (combine_list rs rs1 rsf)
+    else mapM (image_fs_filter im fss) rs1.
 End WithRegexp.
 
 (* ---------- the expected shape of the compiled image pattern for a literal entry name ---------- *)
